@@ -4,6 +4,7 @@ import (
 	"bytes"
 	"encoding/json"
 	"fmt"
+	"math"
 
 	"verif/fw"
 	"verif/wsp"
@@ -143,7 +144,8 @@ func (e *Explorer) Run() {
 	seen := map[string]bool{st0.Key(): true}
 	core := []coreState{{st0, r0, ""}}
 	frontier := core
-	horizon := e.Now0 + 2*e.Cfg.Archs[len(e.Cfg.Archs)-1].Ret() + Period(e.Cfg.Archs)
+	span := 2*e.Cfg.Archs[len(e.Cfg.Archs)-1].Ret() + Period(e.Cfg.Archs)
+	horizon := e.Now0 + span
 	for d := 0; d < e.Depth; d++ {
 		var next []coreState
 		for _, cs := range frontier {
@@ -151,8 +153,21 @@ func (e *Explorer) Run() {
 				if c.Expired() {
 					return
 				}
-				if op.Kind == "ADV" && cs.st.Now+op.D > horizon {
-					continue
+				if op.Kind == "ADV" {
+					jumped := cs.st.Now >= e.Now0+LongJump
+					if op.D == LongJump {
+						if jumped || cs.st.Now+LongJump+span > math.MaxUint32 {
+							continue
+						}
+					} else {
+						h := horizon
+						if jumped {
+							h += LongJump
+						}
+						if cs.st.Now+op.D > h {
+							continue
+						}
+					}
 				}
 				ns, nr, ok := e.Step(cs.st, cs.rings, op, d, cs.path)
 				if !ok {
